@@ -281,7 +281,7 @@ func (st *State) iteVal(g *Term, a, b Value) Value {
 		if y, ok := b.(string); ok && x == y {
 			return x
 		}
-		if strLen(b) == len(x) {
+		if isStr(b) && strLen(b) == len(x) {
 			xb, yb := strBytes(x), strBytes(b)
 			out := make([]*Term, len(xb))
 			for i := range xb {
@@ -290,7 +290,7 @@ func (st *State) iteVal(g *Term, a, b Value) Value {
 			return mkStr(out)
 		}
 	case *SymStr:
-		if strLen(b) == len(x.B) {
+		if isStr(b) && strLen(b) == len(x.B) {
 			yb := strBytes(b)
 			out := make([]*Term, len(x.B))
 			for i := range x.B {
@@ -546,4 +546,12 @@ func (st *State) formatTyped(v Value, t types.Type) string {
 		}
 	}
 	return st.format(v)
+}
+
+func isStr(v Value) bool {
+	switch v.(type) {
+	case string, *SymStr:
+		return true
+	}
+	return false
 }
